@@ -398,14 +398,14 @@ WriteAccept(k) ==
 \* write-side back pressure on the websocket's socket: it stops / resumes accepting data (nobody is notified)
 WsBlock ==
   /\ IsWs /\ ~blocked /\ nblock < MaxBlock
-  /\ blocked' = TRUE /\ nblock' = nblock + 1
+  /\ blocked' = TRUE /\ nblock' = nblock + 1 /\ Log(H("wsblock", 0, ""))
   /\ UNCHANGED <<cfg, sent, wsq, packed, net, eof, abuf, rbuf, roff, pc, pending, pongleft, wcur, wleft, wlen, nwrites, wafter,
-                 out, units, held, results, nerr, npend, ncancel, ntimeout, hist>>
+                 out, units, held, results, nerr, npend, ncancel, ntimeout>>
 WsUnblock ==
   /\ IsWs /\ blocked
-  /\ blocked' = FALSE
+  /\ blocked' = FALSE /\ Log(H("wsunblock", 0, ""))
   /\ UNCHANGED <<cfg, sent, wsq, packed, net, eof, abuf, rbuf, roff, pc, pending, pongleft, wcur, wleft, wlen, nwrites, wafter,
-                 out, units, held, nblock, results, nerr, npend, ncancel, ntimeout, hist>>
+                 out, units, held, nblock, results, nerr, npend, ncancel, ntimeout>>
 
 WritePending ==
   /\ pc = "write" /\ IsTokio /\ npend < MaxPending
